@@ -33,7 +33,7 @@ STUBS = ["hash(float)/hash(bytes) contract stubs", "struct.pack"]
 
 
 def bounds(tier):
-    return {"float_payloads": "all 2^64 binary64 patterns", "int_payload_range": [-8, 8] if tier == "quick" else [-40, 40], "int_widths": [1, 8, 64]}
+    return {"float_payloads": "all 2^64 binary64 patterns", "int_payload_range": [-8, 8] if tier == "quick" else [-31, 32], "int_widths": [1, 8, 64]}
 
 
 def obligations(tier):
@@ -43,7 +43,7 @@ def obligations(tier):
     for t in ("f32", "f64"):
         for p in ("refl", "sym", "eq_iff_bits", "trans"):
             obs.append({"id": f"C08/FloatAttr.{t}/{p}", "kind": "fattr", "prop": p, "t": t})
-    for cls in ("IntAttr", "IntegerAttr.i8", "IntegerAttr.i64", "IntegerAttr.index", "IntegerType", "ArrayAttr.IntAttr"):
+    for cls in ("IntAttr", "IntegerAttr.i8", "IntegerAttr.i64", "IntegerAttr.index", "IntegerType", "ArrayAttr.IntAttr", "Unregistered.attr", "Unregistered.type", "Strided.offset", "DenseArray.payload"):
         for p in ("refl", "sym", "trans", "eq_iff_payload", "eq_implies_hash"):
             obs.append({"id": f"C08/{cls}/{p}", "kind": "iattr", "cls": cls, "prop": p})
     for shape in ("constant.i8", "addi.attr", "testop.props"):
@@ -52,13 +52,46 @@ def obligations(tier):
     return obs
 
 
+_UNREG = {}
+
+
+def mk_iattr(cls, v):
+    if cls == "IntAttr":
+        return IntAttr(v)
+    if cls.startswith("IntegerAttr"):
+        t = cls.split(".")[1]
+        return IntegerAttr(v, builtin.IndexType() if t == "index" else IntegerType(int(t[1:])))
+    if cls == "IntegerType":
+        return IntegerType(v)
+    if cls == "ArrayAttr.IntAttr":
+        return ArrayAttr([IntAttr(v), IntAttr(1)])
+    if cls.startswith("Unregistered"):
+        # the per-name class xdsl creates for attributes/types of unloaded dialects; the payload field normally holds the
+        # raw text, here an IntAttr so that it can be symbolic (fields are compared generically)
+        is_type = cls.endswith("type")
+        U = _UNREG.setdefault(is_type, builtin.UnregisteredAttr.with_name_and_type("foo.bar", is_type))  # one class per name, as a Context keeps it
+        u = U.__new__(U)
+        for f_, val in (("attr_name", builtin.StringAttr("foo.bar")), ("is_type", IntAttr(int(is_type))), ("is_opaque", IntAttr(0)), ("value", IntAttr(v))):
+            object.__setattr__(u, f_, val)
+        return u
+    if cls == "Strided.offset":
+        return builtin.StridedLayoutAttr(ArrayAttr([IntAttr(1), builtin.NoneAttr()]), IntAttr(v))
+    if cls == "DenseArray.payload":
+        d = builtin.DenseArrayBase.__new__(builtin.DenseArrayBase)
+        object.__setattr__(d, "elt_type", builtin.i32)
+        object.__setattr__(d, "data", IntAttr(v))
+        return d
+
+
+
+
 def b(x):
     return as_z3_bool(x)
 
 
 def run(ob, tier, stats, exclude):
     k = ob["kind"]
-    lo, hi = (-8, 8) if tier == "quick" else (-40, 40)
+    lo, hi = (-8, 8) if tier == "quick" else (-31, 32)
 
     if k == "fdata":
         def h(ex):
@@ -105,15 +138,7 @@ def run(ob, tier, stats, exclude):
         cls = ob["cls"]
 
         def mk(v):
-            if cls == "IntAttr":
-                return IntAttr(v)
-            if cls.startswith("IntegerAttr"):
-                t = cls.split(".")[1]
-                return IntegerAttr(v, builtin.IndexType() if t == "index" else IntegerType(int(t[1:])))
-            if cls == "IntegerType":
-                return IntegerType(v)
-            if cls == "ArrayAttr.IntAttr":
-                return ArrayAttr([IntAttr(v), IntAttr(1)])
+            return mk_iattr(cls, v)
 
         l, hgh = (1, 16) if cls == "IntegerType" else (lo, hi)
 
@@ -209,14 +234,7 @@ def replay(ob, inputs):
             cls = ob["cls"]
 
             def mk(v):
-                if cls == "IntAttr":
-                    return IntAttr(v)
-                if cls.startswith("IntegerAttr"):
-                    t = cls.split(".")[1]
-                    return IntegerAttr(v, builtin.IndexType() if t == "index" else IntegerType(int(t[1:])))
-                if cls == "IntegerType":
-                    return IntegerType(v)
-                return ArrayAttr([IntAttr(v), IntAttr(1)])
+                return mk_iattr(cls, v)
             xs = [inputs.get(n, 1) for n in ("a", "b", "c")]
             A, B, Cc = (mk(x) for x in xs)
             bad = {"refl": lambda: not (A == mk(xs[0])), "sym": lambda: (A == B) != (B == A),
